@@ -37,9 +37,12 @@ P15 == ABin("=", Call1("float", AVal), AFlt(3, 1))
 P16 == AIn(Call1("strlen", AVal), <<AInt(1), ABin("+", AInt(1), AInt(1))>>)
 P17 == ABetween(AKey, AStr(a), ABin("+", AStr(bb), AStr(xx)))
 PJ == ABin("=", AIdx(Call1("json", AVal), AStr(a)), AStr(xx))
+\* a cascaded (two-level) field access: a fault inside its base must still be found
+PJ2 == ABin("=", AIdx(AIdx(Call1("json", ABin("+", AVal, AStr(<<>>))), AStr(a)), AStr(bb)), AStr(xx))
+PJ3 == ABin("=", AIdx(AIdx(Call1("json", Call1("lower", AVal)), AStr(a)), AInt(0)), AStr(xx))
 Atoms == {P1, P2, P3, P4, P5, P6, P7, P8, P9, P10, P11, P12, P13, P14, P15, P16, P17}
 SmallP == IF Scale >= 2 THEN {P1, P3, P5, P7, P10, P2} ELSE {P1, P3, P7}
-Wheres == Atoms \cup {PJ} \cup {ANot(p) : p \in Atoms}
+Wheres == Atoms \cup {PJ, PJ2, PJ3} \cup {ANot(p) : p \in Atoms}
           \cup {ABin(op, p, q) : op \in {"&", "or"}, p \in SmallP, q \in SmallP}
           \cup {ABin("and", ANot(p), ABin("|", q, ANot(p))) : p \in SmallP, q \in SmallP}
           \cup {ABin(op, ANot(p), q) : op \in {"&", "|", "and", "or"}, p \in {P1, P3}, q \in {P7, P2}}
@@ -51,12 +54,19 @@ Wheres == Atoms \cup {PJ} \cup {ANot(p) : p \in Atoms}
 
 Fields == { <<F(AKey, ""), F(ABin("+", Call1("int", AVal), AInt(1)), "n")>>, <<F(Call1("upper", AKey), ""), F(Call1("str", Call1("strlen", AVal)), "")>>,
             <<F(AIdx(SplitV, AInt(0)), "h"), F(P3, "big")>>, <<F(ACall("join", <<AStr(Comma), AKey, AVal>>), "j")>> }
+\* a chain of select fields each built on the name before it (text + text stays text, whatever is resolved first)
+ChainFields == { <<F(AKey, "s"), F(ABin("+", AName("s"), AStr(xx)), "t"), F(ABin("+", AName("t"), AStr(a)), "u")>>,
+                 <<F(AKey, "s"), F(ABin("+", AName("s"), AStr(xx)), "t"), F(Call1("upper", ABin("+", AName("t"), AStr(a))), "u")>>,
+                 <<F(Call1("strlen", AKey), "n"), F(ABin("+", AName("n"), AInt(1)), "m"), F(ABin("*", AName("m"), AInt(2)), "d")>> }
 Selects == { Stmt("select", <<>>, w, <<>>, <<>>) : w \in Wheres }
+           \cup { Stmt("select", f, w, <<>>, <<>>) : f \in ChainFields, w \in {P1} }
+           \cup { Stmt("select", <<F(AKey, ""), F(AIdx(AIdx(Call1("json", AVal), AStr(a)), AStr(bb)), "jj")>>, P1, <<>>, <<>>) }
+           \* (a name built on another name is not typed inside WHERE by the engine's checker: such statements are refused, DESIGN.md 0.4)
            \cup { Stmt("select", f, w, <<>>, <<>>) : f \in Fields, w \in {P1, P9, ANot(P3)} }
            \cup { Stmt("select", <<F(AKey, ""), F(Call1("int", AVal), "n")>>, ABin("&", ABin(">", AName("n"), AInt(1)), P1), <<>>, <<>>) }
 Deletes == { Stmt("delete", <<>>, w, <<>>, <<>>) : w \in {P1, P3, ABin("&", P5, P7), ANot(P2)} }
 PutKeys == { AStr(a), ABin("+", AStr(a), AStr(bb)), Call1("upper", AStr(a)), AInt(7) }
-PutVals == { AStr(xx), ABin("+", AStr(xx), AKey), Call1("upper", ABin("+", AStr(xx), AKey)), Call1("strlen", AKey), ACall("join", <<AStr(Comma), AKey, AInt(1)>>) }
+PutVals == { AStr(xx), AIdx(AIdx(Call1("json", ABin("+", AStr(<<123, 125>>), AKey)), AStr(a)), AStr(bb)), ABin("+", AStr(xx), AKey), Call1("upper", ABin("+", AStr(xx), AKey)), Call1("strlen", AKey), ACall("join", <<AStr(Comma), AKey, AInt(1)>>) }
 Puts == { Stmt("put", <<>>, ABool(TRUE), <<PP(k, v)>>, <<>>) : k \in PutKeys, v \in PutVals }
         \cup { Stmt("put", <<>>, ABool(TRUE), <<PP(AStr(a), AStr(xx)), PP(k, v)>>, <<>>) : k \in {AStr(bb)}, v \in PutVals }
 Removes == { Stmt("remove", <<>>, ABool(TRUE), <<>>, <<k>>) : k \in PutKeys } \cup { Stmt("remove", <<>>, ABool(TRUE), <<>>, <<AStr(a), Call1("lower", AStr(AB))>>) }
